@@ -62,8 +62,7 @@ theorem indexCheckError_of {b : Nat}
         · exact absurd h h3
 
 theorem mem_listErrors_of_bandErrors {b : Nat} {e : Err} (he : e ∈ bandErrors s b) : e ∈ listErrors s b := by
-  unfold listErrors chain
-  simp only [List.flatMap_cons]
+  unfold listErrors
   exact List.mem_append_left _ he
 
 end
